@@ -29,7 +29,11 @@ def run(project, rep):
     from .. import rules_values as V
     # the two decode tables of the readers: exactly Y/N by strict lookup (V-R5), single-pass six-entity decoder (V-R6)
     rep.run_only(("V-R5", "V-R6"), V.v_rules, Schema(project), rep)
+    from .. import rules_schema as S
+    rep.rule("T-R11", "the converter applied to a child is the one its own class declares: the merged class namespace lets a subclass's declaration win (S-R12); every offset the notation allows is admitted (Z-R8); dates typed at the command line reach the converter unedited (J-R9 is C19's / C09's)")
+    rep.run(S.s_r12_superdict_precedence, Schema(project), rep)
     from .. import rules_dates as Z
+    rep.run(Z.z_r8_offset_domain, project, rep)
     from .. import rules_wire as L
     rep.run(Z.z_r2_naive, project, rep)
     rep.rule("T-R8", "texts that do not denote a date-time / time are rejected when read: the grammar of the two patterns (Z-R1, Z-R1b)")
